@@ -185,6 +185,28 @@ def main(tier, replay=None):
             traces.append(dict(empty, id="c09-soup-%d" % k, obs=obs))
             metas.append(("token-soup", "", {"text": t}))
             rep.feature("token-soup:" + outcome["outcome"])
+        # the command line on a sample of the mutants: main() must turn every outcome into a diagnostic and an
+        # exit status, never a traceback
+        clijobs, cliidx = [], []
+        for ti, (tr, meta) in enumerate(zip(traces, metas)):
+            if meta[0] in ("text-mutant", "token-soup") and ti % (6 if tier == "quick" else 10) == 0:
+                mdir = None
+                # the mutant file of this trace lives in the scratch directory numbered like the trace
+                # (re-derive its path from the texts we kept)
+                text = list(meta[2].values())[0]
+                d = scratch.sub()
+                mp = os.path.join(d, "cli_mutant.bitproto")
+                with open(mp, "w", encoding="utf8", errors="replace") as f:
+                    f.write(text)
+                out = os.path.join(d, "out")
+                os.makedirs(out)
+                clijobs.append((["py", mp, out], d))
+                cliidx.append(ti)
+        for ti, (rc, so, se) in zip(cliidx, comptrace.run_cli_many(clijobs)):
+            traces[ti]["obs"].append({"ev": "CliTotal", "exit": rc,
+                                      "traceback": "Traceback (most recent call last)" in se,
+                                      "what": (se.strip().splitlines() or [""])[-1][:120]})
+            rep.feature("cli-on-mutant")
         # (c) every accepted U_rand schema renders in every language
         for k in range(nprog):
             pr, _ = gen.rand_case(seed, 150000 + k, p_empty_msg=0.15)
